@@ -16,7 +16,7 @@ func XMultiSameMethod() *spec.Spec {
 
 // Extended returns the extended families (everything beyond the documented core combinations).
 func Extended(thorough bool) []*spec.Spec {
-	out := []*spec.Spec{XMultiSameMethod(), XCrossFile(), XTwoServiceFiles(), XTimestampCards(), XTimestampCardsFmt(), XEmptyOrders(), XOneofSiblings(), XSharedMethodHeader()}
+	out := []*spec.Spec{XMultiSameMethod(), XCrossFile(), XTwoServiceFiles(), XTimestampCards(), XTimestampCardsFmt(), XEmptyOrders(), XOneofSiblings(), XSharedMethodHeader(), XQuotedHeaderTexts()}
 	out = append(out, CtxSpecs()...)
 	out = append(out, RouteSpecs(thorough)...)
 	out = append(out, BindSpecs(thorough)...)
@@ -193,4 +193,14 @@ func XOneofSiblings() *spec.Spec {
 			WithOneof(&spec.Oneof{Name: "extra"}, &spec.Oneof{Name: "content", Config: true, Disc: "kind"}),
 	}, Services: []*spec.Service{EchoService("OneofSiblingService", "FlatWithOptional", "NestedWithOptional", "FlatWithPlainOneof", "NestedWithPlainOneof")}}
 	return withCell(spec.One("x_oneof_siblings", f), "ext/unit=oneof_siblings", "extended", "valid", "codec")
+}
+
+// XQuotedHeaderTexts: header metadata and comments containing quotes, backslashes and newlines.
+func XQuotedHeaderTexts() *spec.Spec {
+	h := &spec.Header{Name: "X-Note", Type: "string", Required: false, Description: `the "note" header \ with a backslash`, Example: `say "hi"`}
+	f := &spec.File{Messages: []*spec.Message{spec.M("Req", spec.F("name", "string")), spec.M("Out", spec.F("ok", "bool"))},
+		Services: []*spec.Service{spec.Svc("QuoteService", "/q", spec.RPC("Do", "Req", "Out", "POST", "/do").H(&spec.Header{Name: "X-Method-Note", Type: "string", Description: `method "level"`})).H(h)}}
+	f.Services[0].Comment = `Service "with" quotes and a \ backslash`
+	f.Messages[0].Comment = "line one\nline \"two\""
+	return withCell(spec.One("x_quoted_texts", f), "ext/unit=quoted_header_texts", "extended", "valid")
 }
